@@ -1,0 +1,49 @@
+//go:build verif
+// +build verif
+
+package gmtls
+
+import "net"
+
+// Hooks for the verification harness (build tag "verif" only): drive Conn.readHandshake and
+// Conn.readRecord(recordTypeChangeCipherSpec) on a connection that is still in its handshake and has no
+// record protection yet (c.in.cipher == nil passes records through).  Nothing here changes existing code.
+
+// VerifHsConn returns a Conn over conn in the state of an endpoint that has agreed on the GMSSL version and
+// is waiting for handshake records in the clear.
+func VerifHsConn(conn net.Conn, isClient bool) *Conn {
+	c := &Conn{conn: conn, isClient: isClient, config: &Config{}}
+	c.vers = VersionGMSSL
+	c.haveVers = true
+	return c
+}
+
+// VerifReadHandshake calls readHandshake once; on success it returns the raw bytes of the message.
+func (c *Conn) VerifReadHandshake() ([]byte, error) {
+	c.in.Lock()
+	defer c.in.Unlock()
+	m, err := c.readHandshake()
+	if err != nil {
+		return nil, err
+	}
+	return m.(handshakeMessage).marshal(), nil
+}
+
+// verifNullStream is the identity "cipher": records stay in the clear after the ChangeCipherSpec.
+type verifNullStream struct{}
+
+func (verifNullStream) XORKeyStream(dst, src []byte) { copy(dst, src) }
+
+// VerifReadCCS does what the handshake does when it expects the peer's ChangeCipherSpec
+// (readFinished: c.readRecord(recordTypeChangeCipherSpec), then c.in.err), with a pending cipher
+// spec prepared so that the outcome depends on the record and on c.hand only.
+func (c *Conn) VerifReadCCS() error {
+	c.in.Lock()
+	defer c.in.Unlock()
+	c.in.prepareCipherSpec(VersionGMSSL, verifNullStream{}, nil)
+	c.readRecord(recordTypeChangeCipherSpec)
+	return c.in.err
+}
+
+// VerifHandLen is c.hand.Len().
+func (c *Conn) VerifHandLen() int { return c.hand.Len() }
